@@ -152,6 +152,13 @@ func c11Run(c c11Case, st *fw.Stats) []fw.Viol {
 			if got != want {
 				add(fmt.Sprintf("lookup:reach:want=%v", want), fmt.Sprintf("strict=%v: route registered as %q (normal form %q): request path %q (normal form %q) reaches it = %v, expected %v", c.Strict, c.P, np, q, norms[qi], got, want))
 			}
+			// a HEAD request is served by the GET route: the fallback lookup must normalise the path in the same way
+			var gotH bool
+			if pv := try(func() { m, _, _ := r.Match("HEAD", q); gotH = m != nil }); pv != nil {
+				add("lookup:panic", fmt.Sprintf("strict=%v: route %q: Match(HEAD,%q) panicked: %v", c.Strict, c.P, q, pv))
+			} else if gotH != want {
+				add(fmt.Sprintf("lookup:head-fallback:want=%v", want), fmt.Sprintf("strict=%v: GET route registered as %q (normal form %q): HEAD request path %q (normal form %q) reaches it = %v, expected %v", c.Strict, c.P, np, q, norms[qi], gotH, want))
+			}
 		}
 		if st.WantSample() && len(c.P) >= 4 {
 			st.Sample(map[string]any{"kind": "square", "strict": c.Strict, "registered": c.P, "normal_form": np, "request_paths": len(set.strs), "e.g.": set.strs[len(set.strs)-3:]})
@@ -242,7 +249,7 @@ func c11Run(c c11Case, st *fw.Stats) []fw.Viol {
 			}
 		}
 	case "encoded":
-		toks := []string{"/", "a", "%2F", "%20", " ", "%2f", "b"}
+		toks := []string{"/", "a", "%2F", "%20", " ", "%2f", "b", "|", "%7C"}
 		var opts []func(*rux.Router)
 		opts = append(opts, c11Opts(c.Strict)...)
 		if c.Enc {
@@ -269,12 +276,17 @@ func c11Run(c c11Case, st *fw.Stats) []fw.Viol {
 					}
 					want := refmodel.Norm(used, c.Strict)[1:]
 					seen, ran = "<none>", 0
-					w := httptest.NewRecorder()
-					req := &http.Request{Method: "GET", URL: u, Header: http.Header{}}
-					if pv := try(func() { r.ServeHTTP(w, req) }); pv != nil {
-						add("encoded:panic", fmt.Sprintf("strict=%v encoded=%v: raw path %q panicked: %v", c.Strict, c.Enc, raw, pv))
-					} else if ran != 1 || seen != want {
-						add(fmt.Sprintf("encoded:path:enc=%v", c.Enc), fmt.Sprintf("strict=%v UseEncodedPath=%v: request raw path %q (decoded %q): route /{all} matched %q (handler runs %d), expected %q", c.Strict, c.Enc, raw, dec, seen, ran, want))
+					// the URL is the source of truth; RequestURI is what a server saw on the wire and may be stale
+					// (http.StripPrefix and friends rewrite the URL only)
+					for _, ruri := range []string{"", raw, "/mounted/prefix" + raw, "*"} {
+						seen, ran = "<none>", 0
+						w := httptest.NewRecorder()
+						req := &http.Request{Method: "GET", URL: u, Header: http.Header{}, RequestURI: ruri}
+						if pv := try(func() { r.ServeHTTP(w, req) }); pv != nil {
+							add("encoded:panic", fmt.Sprintf("strict=%v encoded=%v: raw path %q (RequestURI %q) panicked: %v", c.Strict, c.Enc, raw, ruri, pv))
+						} else if ran != 1 || seen != want {
+							add(fmt.Sprintf("encoded:path:enc=%v", c.Enc), fmt.Sprintf("strict=%v UseEncodedPath=%v: request URL raw path %q (decoded %q), RequestURI %q: route /{all} matched %q (handler runs %d), expected %q", c.Strict, c.Enc, raw, dec, ruri, seen, ran, want))
+						}
 					}
 				}
 			}
@@ -293,8 +305,8 @@ func c11Run(c c11Case, st *fw.Stats) []fw.Viol {
 var c11Spec = fw.Spec[c11Case]{
 	ID:    "C11",
 	Level: "model_checking",
-	Rule: "complete enumeration: ALL strings of length <=L over {'/',' ','.','a','b',TAB} as registered path P and as request path Q - the full P x Q square in both StrictLastSlash modes (one evaluation = one lookup of Q on a router holding P; reach <=> Norm(Q)==Norm(P)); " +
-		"all G x P x Q over strings of length <=3 for group prefixes and all nested G1 x G2 x P over strings of length <=2; all raw paths of <=4 tokens over {/,a,b,%2F,%2f,%20,space} under both UseEncodedPath settings; non-trivial = a (P,Q) pair that must reach the route / an escaped path that differs from the decoded one",
+	Rule: "complete enumeration: ALL strings of length <=L over {'/',' ','.','a','b',TAB} as registered path P and as request path Q - the full P x Q square in both StrictLastSlash modes (one evaluation = one GET and one HEAD lookup of Q on a router holding GET P; reach <=> Norm(Q)==Norm(P)); " +
+		"all G x P x Q over strings of length <=3 for group prefixes and all nested G1 x G2 x P over strings of length <=2; all raw paths of <=4 tokens over {/,a,b,%2F,%2f,%20,space,|,%7C}, each with four RequestURI values (absent, equal, stale prefix, *) under both UseEncodedPath settings; non-trivial = a (P,Q) pair that must reach the route / an escaped path that differs from the decoded one",
 	Assume: []string{"alphabet of 6 characters; L=5 quick, 6 thorough", "net/url's EscapedPath is taken as the definition of 'the escaped path'"},
 	Bounds: func(tier string) map[string]any {
 		L := 5
